@@ -18,3 +18,4 @@
 (assert (forall ((v RVal)) (! (= (rvValid (rvElem v)) (and (rvValid v) (not (rvIsNilPtr v)))) :pattern ((rvElem v)))))  ;;@trusted Elem of a nil pointer is the zero (invalid) Value
 (assert (forall ((v RVal) (t Val)) (! (rvValid (rvConvert v t)) :pattern ((rvConvert v t)))))               ;;@trusted Convert yields a valid Value
 (assert (forall ((v RVal)) (! (=> (rvValid v) (not (= (rvIface v) nilv))) :pattern ((rvIface v)))))        ;;@trusted Interface of a valid struct value is non-nil (used for struct kinds only)
+(assert (forall ((v RVal)) (! (= (rvValid v) (not (= (rvKind v) 0))) :pattern ((rvKind v)))))              ;;@trusted Kind() is Invalid (0) exactly for the zero Value
